@@ -1,0 +1,12 @@
+//go:build verif
+
+// Verification hook for property C14 (harness/c14, mode dseq). Not part of the product build.
+package xds
+
+import "istio.io/istio/pilot/pkg/model"
+
+// VerifC14ComputeProxyState runs the per-connection state update the server does before a full push
+// (selective recomputation of service targets, SidecarScope and merged gateways).
+func VerifC14ComputeProxyState(s *DiscoveryServer, proxy *model.Proxy, req *model.PushRequest) {
+	s.computeProxyState(proxy, req)
+}
